@@ -87,6 +87,9 @@ pub enum Strat {
     ByName,
     SetDep,
     Random(u64),
+    /// package `x` (the first layer of a layered registry) first, then the packages named `f_…`, then
+    /// fewest versions first; newest version: a conflict in the deeper layers backjumps over all fillers
+    FillersFirst,
 }
 impl Strat {
     pub fn to_text(&self) -> String {
@@ -97,6 +100,7 @@ impl Strat {
             Strat::ByName => "byname".into(),
             Strat::SetDep => "setdep".into(),
             Strat::Random(s) => format!("random:{}", s),
+            Strat::FillersFirst => "fillers_first".into(),
         }
     }
     pub fn from_text(s: &str) -> Self {
@@ -106,6 +110,7 @@ impl Strat {
             "const" => Strat::Const,
             "byname" => Strat::ByName,
             "setdep" => Strat::SetDep,
+            "fillers_first" => Strat::FillersFirst,
             _ => Strat::Random(s.strip_prefix("random:").expect("strategy").parse().unwrap()),
         }
     }
@@ -182,7 +187,11 @@ impl<VS: HSet> HProvider<VS> {
             }
         }
         let seed = if let Strat::Random(s) = strat { s } else { 0 };
-        HProvider { reg, dep_maps, strat, fault, log, calls: Cell::new(0), rng: RefCell::new(Rng::new(seed)), budget: 50_000 }
+        {
+            // deep registries: every snapshot lists hundreds of packages; a runaway run must stay small
+            let budget = if reg.entries.len() > 100 { 6_000 } else { 3_000 };
+            HProvider { reg, dep_maps, strat, fault, log, calls: Cell::new(0), rng: RefCell::new(Rng::new(seed)), budget }
+        }
     }
     fn tick(&self) -> Result<usize, HErr> {
         let k = self.calls.get();
@@ -222,6 +231,7 @@ impl<VS: HSet> DependencyProvider for HProvider<VS> {
             Strat::ByName => p.bytes().map(|b| b as u64).sum::<u64>() % 7,
             Strat::SetDep => (set.to_machine().len() as u64 * 7 + n) % 5,
             Strat::Random(_) => self.rng.borrow_mut().below(3),
+            Strat::FillersFirst => if p == "x" { 3_000_000 } else if p.starts_with("f_") { 2_000_000 } else { 1_000_000 - n },
         };
         self.log.borrow_mut().push(Ev::Prio { p: p.clone(), set_disp: set.to_string(), set_m: set.to_machine(), prio });
         prio
@@ -235,7 +245,7 @@ impl<VS: HSet> DependencyProvider for HProvider<VS> {
             }
             let m = self.matching(p, set);
             match self.strat {
-                Strat::NewestFewest | Strat::Const | Strat::SetDep => m.last().copied(),
+                Strat::NewestFewest | Strat::Const | Strat::SetDep | Strat::FillersFirst => m.last().copied(),
                 Strat::OldestFewest | Strat::ByName => m.first().copied(),
                 Strat::Random(_) => {
                     if m.is_empty() {
@@ -651,7 +661,7 @@ pub fn eval_solve<VS: HSet>(r: &SolveReq<VS>) -> SolveEval<VS> {
     let mut tags: Vec<&'static str> = vec![];
     // brute force over all selections, unless the registry is too large for it (then the oracles that
     // need all solutions are skipped for this request and the request only serves the exact mirror)
-    let space: u64 = r.reg.packages().iter().map(|p| r.reg.versions(p).len() as u64 + 1).product();
+    let space: u64 = r.reg.packages().iter().map(|p| r.reg.versions(p).len() as u64 + 1).fold(1u64, |a, b| a.saturating_mul(b));
     let brute = space <= 4_000;
     let sels = if brute { all_selections(&r.reg) } else { vec![] };
     let solutions: Vec<&Sel> = sels.iter().filter(|s| is_solution(&r.reg, &r.root, r.rv, s).is_ok()).collect();
@@ -953,6 +963,30 @@ pub fn random_registry<VS: HSet>(rng: &mut Rng, versions: &[u32]) -> Registry<VS
         }
     }
     Registry { entries }
+}
+
+/// deep registries: `n_fillers` independent packages `f_000…` (one version, no dependencies) that the
+/// strategy `FillersFirst` decides first, one decision level each, in front of a layered registry: the
+/// conflicts and backjumps of the layered part then happen at decision levels around `n_fillers`
+/// (chosen so that they straddle 256: a level stored or compared in 8 bits shows)
+pub fn deep_registry<VS: HSet>(rng: &mut Rng, versions: &[u32]) -> Registry<VS> {
+    let mut reg = layered_registry::<VS>(rng, versions);
+    let n_fillers = 248 + rng.below(8) as usize; // 248..=255: the layered part is decided around level 256
+    let full = VS::from_machine(&VS::full().to_machine());
+    let names: Vec<String> = (0..n_fillers).map(|i| format!("f_{:03}", i)).collect();
+    for ((p, _), d) in reg.entries.iter_mut() {
+        if p == "root" {
+            if let Ok(ds) = d {
+                for n in &names {
+                    ds.push((n.clone(), VS::from_machine(&full.to_machine())));
+                }
+            }
+        }
+    }
+    for n in &names {
+        reg.entries.insert((n.clone(), 1), Ok(vec![]));
+    }
+    reg
 }
 
 /// layered registries: root -> x -> y -> z with several versions per layer and breakage at the bottom,
